@@ -260,6 +260,8 @@ class Dims:
     sites = self.call_sites().get(f.qualname, [])
     if not sites or depth <= 0:
       return None
+    if name not in f.params:
+      return None
     idx = f.params.index(name)
     off = 1 if f.kind in ('method', 'getter', 'setter') else 0
     acc, first = None, True
